@@ -163,6 +163,9 @@ type Path struct {
 	Locs   []*Loc
 	// RecvObj: the receiver object of this path (struct mode; a fresh copy per path when RecvFresh is set)
 	RecvObj *StructVal
+	// Env, Ctl: see Config.Body
+	Env map[types.Object]Value
+	Ctl string
 }
 
 func (p *Path) CondString() string {
@@ -223,6 +226,18 @@ type Config struct {
 	// Borrow resolves a method that a local vector ("vector") or local matrix ("matrix") does not model to the
 	// declaration of a concrete container type; the body is interpreted with the local object as receiver.
 	Borrow func(kind, name string) (*ast.FuncDecl, *types.Info)
+	// CallHook: consulted first for every resolved plain function call; a non-nil result handles the call with the
+	// evaluated arguments (routines modelled as opaque atoms, or related to one another by a stated identity).
+	CallHook func(fn *types.Func) func(args []Value) Value
+	// Body: when non-nil these statements (a loop body of the function) are interpreted instead of the function body;
+	// Env pre-binds the variables they read (copied per path). The path records the final values of the pre-bound
+	// variables (Path.Env) and how the statements were left (Path.Ctl: "", "break", "continue").
+	Body []ast.Stmt
+	Env  map[types.Object]Value
+	// GlobalSyms: package-level numeric variables are read as symbols of their own name.
+	GlobalSyms bool
+	// GlobalVals: values of named package-level variables (an iteration limit bound to a small constant).
+	GlobalVals map[string]*sym.Term
 	// FiniteSyms: symbolic terms denote finite numbers, so comparisons with the symbol -Inf are decided (x > -Inf).
 	FiniteSyms bool
 }
@@ -400,6 +415,27 @@ func (it *Interp) runOnce(fd *ast.FuncDecl) (p *Path, und *Undecided) {
 			it.path.Params = append(it.path.Params, v)
 			k++
 		}
+	}
+	if it.cfg.Body != nil {
+		memo := map[interface{}]Value{}
+		for o, v := range it.cfg.Env {
+			frame[o] = DeepCopy(v, memo)
+		}
+		it.unrolled++ // break/continue leave the statements
+		for _, st := range it.cfg.Body {
+			if it.done || it.ctl != "" {
+				break
+			}
+			it.stmt(st)
+		}
+		it.unrolled--
+		it.path.Ctl = it.ctl
+		it.path.Env = map[types.Object]Value{}
+		for o := range it.cfg.Env {
+			it.path.Env[o] = frame[o]
+		}
+		it.path.Ret = it.ret
+		return it.path, nil
 	}
 	it.block(fd.Body.List)
 	if it.cfg.KernelMode {
@@ -882,6 +918,15 @@ func (it *Interp) eval(e ast.Expr) Value {
 			if n := namedOf(o.Type()); n != nil && n.Obj().Name() == "ScalarType" {
 				return &OpaqueVal{"scalartype"} // Float64Type, Real64Type, ... : carried, never inspected
 			}
+			// a package-level numeric variable (MaxLogFloat64, EpsilonFloat64, ...): a fixed unknown number
+			if v, ok := o.(*types.Var); ok && it.cfg.GlobalVals != nil && it.cfg.GlobalVals[v.Name()] != nil && v.Pkg() != nil && v.Parent() == v.Pkg().Scope() {
+				return it.cfg.GlobalVals[v.Name()]
+			}
+			if v, ok := o.(*types.Var); ok && it.cfg.GlobalSyms && v.Parent() != nil && v.Pkg() != nil && v.Parent() == v.Pkg().Scope() {
+				if b, ok := v.Type().Underlying().(*types.Basic); ok && b.Info()&(types.IsFloat|types.IsInteger) != 0 {
+					return sym.Sym(v.Name())
+				}
+			}
 		}
 		it.undecided(e.Pos(), "unbound identifier %s", x.Name)
 	case *ast.BasicLit:
@@ -940,6 +985,20 @@ func (it *Interp) eval(e ast.Expr) Value {
 				}
 			}
 			return sym.Fn("imod", l, r)
+		case token.AND:
+			if a, ok := constIndex(l); ok {
+				if b, ok := constIndex(r); ok {
+					return sym.Int(int64(a & b))
+				}
+			}
+			return sym.Fn("bitand", l, r)
+		case token.OR:
+			if a, ok := constIndex(l); ok {
+				if b, ok := constIndex(r); ok {
+					return sym.Int(int64(a | b))
+				}
+			}
+			return sym.Fn("bitor", l, r)
 		}
 	case *ast.IndexExpr:
 		base := it.eval(x.X)
@@ -1364,6 +1423,15 @@ func (it *Interp) callFunc(fn *types.Func, call *ast.CallExpr) Value {
 		pkgName = fn.Pkg().Name()
 	}
 	full := pkgName + "." + fn.Name()
+	if it.cfg.CallHook != nil {
+		if h := it.cfg.CallHook(fn); h != nil {
+			var args []Value
+			for _, a := range call.Args {
+				args = append(args, it.eval(a))
+			}
+			return h(args)
+		}
+	}
 	if name, ok := mathFn[full]; ok {
 		var args []*sym.Term
 		for _, a := range call.Args {
